@@ -192,15 +192,16 @@ class Edits:
                 if a == b:
                     continue
                 raise ToolError('overlapping edits at %d' % a)
-            parts.append((self.src[pos:a], pos)); parts.append((text, None)); pos = max(pos, b)
+            parts.append((self.src[pos:a], pos)); parts.append((text, a if b > a else None)); pos = max(pos, b)
         parts.append((self.src[pos:hi], pos))
         lm = {}; g = 0; out = []
         for text, off in parts:
             if off is not None and text:
                 base = self.src.count('\n', 0, off) + 1
+                is_src = text == self.src[off:off + len(text)]
                 for k, piece in enumerate(text.split('\n')):
                     if piece.strip() and (g + k) not in lm:
-                        lm[g + k] = base + k
+                        lm[g + k] = base + (k if is_src else 0)
             g += text.count('\n'); out.append(text)
         text = ''.join(out)
         return text, [lm.get(i) for i in range(text.count('\n') + 1)]
@@ -297,6 +298,30 @@ def apply_rewrites(src, mask, it, ed, stats, spec_entry):
     for m in re.finditer(r'&_\s*=>', body):
         if mask[lo + m.start()] == ord('c'):
             ed.replace(lo + m.start(), lo + m.start() + 1, ''); stats['R5_refpat'] += 1
+    # R3: `for PAT in EXPR { BODY }` whose body contains `continue` => the reference desugaring
+    #     { let mut it = IntoIterator::into_iter(EXPR); loop { match it.next() { None => break, Some(PAT) => { BODY } } } }
+    loops = find_loops(src, mask, lo + 1, hi - 1)
+    for k, L in enumerate(loops):
+        if L['kind'] != 'for': continue
+        btxt = src[L['body_open']:L['body_close']]
+        if not any(mask[L['body_open'] + m.start()] == ord('c') for m in re.finditer(r'\bcontinue\b', btxt)):
+            continue
+        hdr = src[L['kw']:L['body_open']]
+        m = re.match(r'for\s+(.+?)\s+in\s+(.+?)\s*$', hdr, re.S)
+        if not m: raise ToolError('R3: cannot parse for header %r' % hdr)
+        pat, expr = m.group(1), m.group(2)
+        auto = ''
+        if re.search(r'\.\.', expr) and not (spec_entry and k in spec_entry['loops'] and 'decreases' in spec_entry['loops'][k]):
+            auto = '\n            invariant r3_it%d.start <= r3_it%d.end,\n' % (k, k)
+            if spec_entry and k in spec_entry['loops']:
+                auto = '\n'
+            else:
+                auto += '            decreases r3_it%d.end - r3_it%d.start,\n        ' % (k, k)
+        ed.replace(L['kw'], L['body_open'], '{ let mut r3_it%d = IntoIterator::into_iter(%s); loop %s' % (k, expr, auto))
+        ed.insert(L['body_open'] + 1, ' match r3_it%d.next() { None => break, Some(%s) => {' % (k, pat), prio=-10)
+        ed.insert(L['body_close'], '} } ', prio=10)
+        ed.insert(L['body_close'] + 1, ' }', prio=10)
+        stats['R3_for_continue'] += 1
     # R4: `LHS op= RHS` => `{ let t = RHS; LHS = LHS op' t; }` for op in + - * / (Verus ICE on the f32 compound
     # form) and & | (=> && ||: Verus has no & | on bool).  Applied to every such statement, whatever the type:
     # for integers the two forms have the same checks in the same order.  `%=` is left alone.
